@@ -5,11 +5,11 @@ pub mod etag_spec {
     pub open spec fn is_weak(a: Seq<u8>) -> bool { a.len() >= 2 && a[0] == 0x57u8 && a[1] == 0x2fu8 }      // "W/"
     pub open spec fn opaque_part(a: Seq<u8>) -> Seq<u8> { if is_weak(a) { a.subrange(2, a.len() as int) } else { a } }
     /// RFC 7232 2.3.2 weak comparison: equal opaque-tags, weakness ignored.
-    pub open spec fn weak_eq_s(a: Seq<u8>, b: Seq<u8>) -> bool { opaque_part(a) == opaque_part(b) }
+    pub open spec fn weak_eq_s(a: Seq<u8>, b: Seq<u8>) -> bool { opaque_part(a) =~= opaque_part(b) }
     /// RFC 7232 2.3.2 strong comparison: both not weak and byte-identical.
-    pub open spec fn strong_eq_s(a: Seq<u8>, b: Seq<u8>) -> bool { a == b && !is_weak(a) }
+    pub open spec fn strong_eq_s(a: Seq<u8>, b: Seq<u8>) -> bool { a =~= b && !is_weak(a) }
 
-    pub open spec fn starts_with_s(a: Seq<u8>, p: Seq<u8>) -> bool { a.len() >= p.len() && a.subrange(0, p.len() as int) == p }
+    pub open spec fn starts_with_s(a: Seq<u8>, p: Seq<u8>) -> bool { a.len() >= p.len() && a.subrange(0, p.len() as int) =~= p }
     /// First index >= from holding byte c.
     pub open spec fn first_at(s: Seq<u8>, from: int, c: u8) -> Option<int>
         decreases s.len() - from
